@@ -1,7 +1,126 @@
 package main
 
-import "wvh/hlib"
+// Shape check and table generation.
+//
+// genTables renders internal/cgen's cOpNames / cTypeNames (through the
+// verif-tagged exports) as Lean definitions: Gen/C04_Tables.lean.  The Lean
+// `lower` (Model/CExpr.lean) picks its C operators from this table, so a
+// changed table entry changes the theorems' subject on the next run.
 
-func genTables() string { return "" }
+import (
+	"fmt"
+	"strings"
+
+	"github.com/google/wuffs/internal/cgen"
+	t "github.com/google/wuffs/lang/token"
+	"wvh/hlib"
+)
+
+var cBinLean = map[string]string{
+	"+": "add", "-": "sub", "*": "mul", "/": "div", "%": "rem", "<<": "shl", ">>": "shr",
+	"&": "band", "|": "bor", "^": "bxor", "<": "lt", "<=": "le", ">": "gt", ">=": "ge",
+	"==": "eq", "!=": "ne", "&&": "land", "||": "lor",
+}
+
+type wopRow struct {
+	lean   string
+	binary t.ID
+	assign t.ID
+	assoc  t.ID
+}
+
+var wopRows = []wopRow{
+	{"add", t.IDXBinaryPlus, t.IDPlusEq, t.IDXAssociativePlus},
+	{"sub", t.IDXBinaryMinus, t.IDMinusEq, 0},
+	{"mul", t.IDXBinaryStar, t.IDStarEq, t.IDXAssociativeStar},
+	{"div", t.IDXBinarySlash, t.IDSlashEq, 0},
+	{"shl", t.IDXBinaryShiftL, t.IDShiftLEq, 0},
+	{"shr", t.IDXBinaryShiftR, t.IDShiftREq, 0},
+	{"band", t.IDXBinaryAmp, t.IDAmpEq, t.IDXAssociativeAmp},
+	{"bor", t.IDXBinaryPipe, t.IDPipeEq, t.IDXAssociativePipe},
+	{"bxor", t.IDXBinaryHat, t.IDHatEq, t.IDXAssociativeHat},
+	{"rem", t.IDXBinaryPercent, t.IDPercentEq, 0},
+	{"modAdd", t.IDXBinaryTildeModPlus, t.IDTildeModPlusEq, 0},
+	{"modSub", t.IDXBinaryTildeModMinus, t.IDTildeModMinusEq, 0},
+	{"modMul", t.IDXBinaryTildeModStar, t.IDTildeModStarEq, 0},
+	{"modShl", t.IDXBinaryTildeModShiftL, t.IDTildeModShiftLEq, 0},
+	{"satAdd", t.IDXBinaryTildeSatPlus, t.IDTildeSatPlusEq, 0},
+	{"satSub", t.IDXBinaryTildeSatMinus, t.IDTildeSatMinusEq, 0},
+	{"ne", t.IDXBinaryNotEq, 0, 0},
+	{"lt", t.IDXBinaryLessThan, 0, 0},
+	{"le", t.IDXBinaryLessEq, 0, 0},
+	{"eq", t.IDXBinaryEqEq, 0, 0},
+	{"ge", t.IDXBinaryGreaterEq, 0, 0},
+	{"gt", t.IDXBinaryGreaterThan, 0, 0},
+	{"land", t.IDXBinaryAnd, 0, t.IDXAssociativeAnd},
+	{"lor", t.IDXBinaryOr, 0, t.IDXAssociativeOr},
+}
+
+func leanCBin(id t.ID, compound bool) (string, string) {
+	if id == 0 {
+		return "none", "(no such Wuffs operator)"
+	}
+	s := cgen.VerifC04COpName(id)
+	if s == cgen.VerifC04NoSuchCOperator {
+		return "none", "noSuchCOperator"
+	}
+	k := strings.TrimSpace(s)
+	if compound {
+		k = strings.TrimSuffix(k, "=")
+	}
+	if l, ok := cBinLean[k]; ok {
+		return "some .CBin." + l, fmt.Sprintf("%q", s)
+	}
+	return "none", fmt.Sprintf("UNRECOGNISED %q", s)
+}
+
+func genTables() string {
+	var b strings.Builder
+	b.WriteString("/- GENERATED on every run by `wvh_c04 -mode gen` from /repo/internal/cgen/expr.go\n" +
+		"   (cOpNames, cTypeNames, through internal/cgen/verif_export_c04.go).  Do not edit. -/\n" +
+		"import WuffsVerif.Model.CSyntax\n\nnamespace WuffsVerif.Gen.C04\nopen WuffsVerif.WOps WuffsVerif.C\n\n")
+	tab := func(name, doc string, f func(r wopRow) (string, string)) {
+		fmt.Fprintf(&b, "/-- %s -/\ndef %s : WOp → Option CBin\n", doc, name)
+		for _, r := range wopRows {
+			v, c := f(r)
+			v = strings.Replace(v, ".CBin.", "CBin.", 1)
+			fmt.Fprintf(&b, "  | .%s => %s  -- %s\n", r.lean, v, c)
+		}
+		b.WriteString("\n")
+	}
+	tab("cBinOf", "cOpNames[t.IDXBinary…]: the C infix operator of a binary operator", func(r wopRow) (string, string) { return leanCBin(r.binary, false) })
+	tab("cAssignOf", "cOpNames[t.ID…Eq]: the C compound-assignment operator (without its `=`)", func(r wopRow) (string, string) { return leanCBin(r.assign, true) })
+	tab("cAssocOf", "cOpNames[t.IDXAssociative…]", func(r wopRow) (string, string) { return leanCBin(r.assoc, false) })
+	un := func(id t.ID) string {
+		switch strings.TrimSpace(cgen.VerifC04COpName(id)) {
+		case "+":
+			return "some CUn.pos"
+		case "-":
+			return "some CUn.neg"
+		case "!":
+			return "some CUn.lnot"
+		}
+		return "none"
+	}
+	fmt.Fprintf(&b, "/-- cOpNames[t.IDXUnary…] -/\ndef cUnOf : WUn → Option CUn\n  | .pos => %s\n  | .neg => %s\n  | .lnot => %s\n\n",
+		un(t.IDXUnaryPlus), un(t.IDXUnaryMinus), un(t.IDXUnaryNot))
+	ty := func(id t.ID) string {
+		switch cgen.VerifC04CTypeName(id) {
+		case "uint8_t":
+			return "some CTy.u8"
+		case "uint16_t":
+			return "some CTy.u16"
+		case "uint32_t":
+			return "some CTy.u32"
+		case "uint64_t":
+			return "some CTy.u64"
+		}
+		return "none"
+	}
+	fmt.Fprintf(&b, "/-- cTypeNames -/\ndef cTypeOf : WTy → Option CTy\n  | .u8 => %s\n  | .u16 => %s\n  | .u32 => %s\n  | .u64 => %s\n\n",
+		ty(t.IDU8), ty(t.IDU16), ty(t.IDU32), ty(t.IDU64))
+	b.WriteString("end WuffsVerif.Gen.C04\n")
+	return b.String()
+}
 
 func shapeCheck(r *hlib.Run, tc *toolchain) {}
